@@ -1,3 +1,7 @@
--- This module serves as the root of the `TrVerif` library.
--- Import modules here that should be built as part of the library.
-import TrVerif.Basic
+import TrVerif.Model.Basic
+import TrVerif.Model.Data
+import TrVerif.Model.Scan
+import TrVerif.Model.Journey
+import TrVerif.Model.Calc
+import TrVerif.Model.Render
+import TrVerif.Model.Driver
